@@ -16,6 +16,7 @@ import (
 	"path/filepath"
 	"sort"
 	"testing"
+	"time"
 
 	"pgregory.net/rand"
 
@@ -223,6 +224,59 @@ func verifC07Random(rnd interface{ Intn(int) int }, thorough bool, i int) []veri
 	return ops
 }
 
+// Events whose counts reach 2^62: too large for TLC's integers, so this scenario is judged here.
+// The specification's Map always completes (StringTop!NeverStuck); the real call is run in its own
+// goroutine and the verdict is taken from the state, not from the clock: once sampleFactorLog2 is
+// past the width of an int while Top is still full, `1 << sampleFactorLog2` is 0 and no later
+// round of the loop can fold anything.
+func verifC07Heavy(res *verifkit.Result, variant int, cap int) (stuck bool) {
+	count := math.Ldexp(1, 62)
+	item := &MultiItem{SF: 1}
+	done := make(chan struct{})
+	go func() {
+		rng := rand.New(uint64(verifkit.Seed()) + uint64(variant))
+		for v := 1; v <= cap+1; v++ {
+			tag := verifC07Tag(v)
+			var mv *MultiValue
+			if variant == 1 {
+				mv = item.MapStringTopBytes(rng, cap, TagUnionBytes{S: []byte(tag.S), I: tag.I}, count)
+			} else {
+				mv = item.MapStringTop(rng, cap, tag, count)
+			}
+			mv.AddCounterHost(rng, count, TagUnion{})
+		}
+		close(done)
+	}()
+	what := fmt.Sprintf("%d values with count 2^62 into capacity %d (variant %d)", cap+1, cap, variant)
+	for i := 0; ; i++ {
+		select {
+		case <-done:
+			total := item.Tail.Value.Count()
+			for _, mv := range item.Top {
+				total += mv.Value.Count()
+			}
+			if len(item.Top) > cap || total != float64(cap+1)*count {
+				res.Mismatch(verifkit.Mismatch{Beh: what, Want: fmt.Sprintf("at most %d top values, total count %v", cap, float64(cap+1)*count),
+					Got: fmt.Sprintf("%d top values, total count %v", len(item.Top), total), Sig: "stringtop-heavy-conservation"})
+			}
+			res.Count("heavy_runs", 1)
+			return false
+		case <-time.After(time.Millisecond):
+		}
+		if sfl := item.sampleFactorLog2; sfl > 4096 { // benign racy read of a counter that only grows
+			res.Mismatch(verifkit.Mismatch{Beh: what, Want: "MapStringTop returns (StringTop!NeverStuck)",
+				Got:  fmt.Sprintf("still in the resample loop with sampleFactorLog2 = %d and Top full: 1 << sampleFactorLog2 wrapped to 0, nothing can be folded any more", sfl),
+				Sig:  "stringtop-resample-never-ends",
+				Note: "the goroutine executing MapStringTop is left spinning"})
+			return true
+		}
+		if i > 600000 { // ten minutes without returning and without the counter moving on: undecided
+			res.Count("heavy_undecided", 1)
+			return true
+		}
+	}
+}
+
 func TestVerifC07(t *testing.T) {
 	verifkit.Gate(t)
 	res := verifkit.NewResult()
@@ -299,6 +353,11 @@ func TestVerifC07(t *testing.T) {
 				res.Count("runs_with_resample", 1)
 			}
 			res.Seen(fmt.Sprintf("cap%d/sfl%d/top%d/variant%d", cap, r.item.sampleFactorLog2, len(r.item.Top), r.variant))
+		}
+	}
+	for _, hv := range [][2]int{{0, 1}, {1, 3}, {0, 3}, {1, 1}} {
+		if verifC07Heavy(res, hv[0], hv[1]) {
+			break
 		}
 	}
 	res.Count("tlc_behaviours", nTLC)
